@@ -5587,13 +5587,12 @@ GRwritechunk(int32       riid,   /* IN: access aid to GR */
     if (NULL == (ri_ptr = (ri_info_t *)HAatom_object(riid)))
         HGOTO_ERROR(DFE_RINOTFOUND, FAIL);
 
-    /* check if access id exists already */
-    if (ri_ptr->img_aid == 0) {
-        /* now get access id, use write access */
-        if (GRIgetaid(ri_ptr, DFACC_WRITE) == FAIL)
-            HGOTO_ERROR(DFE_INTERNAL, FAIL);
-    }
-    else if (ri_ptr->img_aid == FAIL)
+    /* get an access id with write permission: an access id left over from
+       reading the image is read-only (so is its chunk table) and chunks
+       written through it could never be flushed to the file */
+    if (ri_ptr->img_aid == FAIL)
+        HGOTO_ERROR(DFE_INTERNAL, FAIL);
+    if (GRIgetaid(ri_ptr, DFACC_WRITE) == FAIL)
         HGOTO_ERROR(DFE_INTERNAL, FAIL);
 
     comp_type = COMP_CODE_NONE;
